@@ -2,7 +2,7 @@
 EXTENDS SizeLimit, Json
 CONSTANTS MaxL, N
 VARIABLE c
-Init == c \in RespCases(MaxL, N) \cup ReqCases(MaxL)
+Init == c \in RespCases(MaxL, N) \cup ReqCases(MaxL) \cup HeadCases(MaxL)
 Next == UNCHANGED c
 Emit == PrintT("CASE " \o ToJson(c))
 =============================================================================
